@@ -34,27 +34,26 @@ Section OldHandler.
   Variable utf8_valid : list N -> bool.
 
   (* the old handle_peer_message: the current one without the leading type test *)
-  Definition handle_peer_message_old (e : env) (f : fs) (m : msg) : outcome (bool * list msg * fs) :=
+  Definition handle_peer_message_old (e : env) (f : fs) (m : msg) : outcome (bool * list msg) * fs :=
     match dh_interface (m_dh m) with
     | Some interface =>
         if str_eqb interface peer_iface then
           match dh_member (m_dh m) with
           | Some member =>
               if str_eqb member ping_name then
-                Ok (true, [make_response (m_dh m)], f)
+                (Ok (true, [make_response (m_dh m)]), f)
               else if str_eqb member get_machine_id_name then
                 match get_machine_id utf8_valid e f with
-                | Ok (id, f1) =>
-                    if existsb (N.eqb 0) id then Panic
-                    else Ok (true, [push_str id (make_response (m_dh m))], f1)
-                | OutOfFuel => OutOfFuel
-                | _ => Panic
+                | (Ok id, f1) =>
+                    if existsb (N.eqb 0) id then (Panic, f1)
+                    else (Ok (true, [push_str id (make_response (m_dh m))]), f1)
+                | (_, f1) => (Panic, f1)
                 end
-              else Ok (false, [], f)
-          | None => Ok (false, [], f)
+              else (Ok (false, []), f)
+          | None => (Ok (false, []), f)
           end
-        else Ok (false, [], f)
-    | None => Ok (false, [], f)
+        else (Ok (false, []), f)
+    | None => (Ok (false, []), f)
     end.
 
   (* witness: a SIGNAL named Peer.Ping (serial 7, sender ":1.1") *)
@@ -65,17 +64,83 @@ Section OldHandler.
   Proof. intros [[H _]|[H _]]; discriminate. Qed.
 
   Theorem C20_old_handler_refuted :
-    exists m, ~ IsPeerCall m /\ forall e f, handle_peer_message_old e f m <> Ok (false, [], f).
+    exists m, ~ IsPeerCall m /\ forall e f, handle_peer_message_old e f m <> (Ok (false, []), f).
   Proof.
     exists ping_signal. split; [exact ping_signal_not_a_call|]. intros e f. vm_compute. discriminate.
   Qed.
 
   (* the signal was answered with a method return carrying its serial, addressed to its sender *)
   Lemma old_handler_answers_signal e f :
-    handle_peer_message_old e f ping_signal = Ok (true, [make_response (m_dh ping_signal)], f).
+    handle_peer_message_old e f ping_signal = (Ok (true, [make_response (m_dh ping_signal)]), f).
   Proof. reflexivity. Qed.
 
   (* the current handler on the same message *)
-  Lemma new_handler_ignores_signal e f : handle_peer_message utf8_valid e f ping_signal = Ok (false, [], f).
+  Lemma new_handler_ignores_signal e f : handle_peer_message utf8_valid e f ping_signal = (Ok (false, []), f).
   Proof. reflexivity. Qed.
 End OldHandler.
+
+(** Historical (before commit c39a1a6 "fix: the machine id is stored atomically"):
+    create_and_store_machine_uuid ended with std::fs::write(MACHINE_ID_FILE_PATH, uuid), i.e. create +
+    truncate + write on the id file itself.  A write that failed after the truncation (ENOSPC) left an
+    EMPTY id file, which get_machine_id then found "existing" and returned as the machine id for ever. *)
+Section OldStore.
+  Variable utf8_valid : list N -> bool.
+  Hypothesis empty_valid : utf8_valid [] = true.
+
+  (* the old store: the write goes straight to the id file (no temporary file, no link) *)
+  Definition create_and_store_old (e : env) (f : fs) : outcome unit * fs :=
+    let secs := e_now e mod 2 ^ 32 in
+    if negb (len (e_rand e) =? 12) then (Panic, f)
+    else
+      let uuid := format_uuid (rand1_of (e_rand e)) (rand2_of (e_rand e)) secs in
+      if negb (len uuid =? 32) then (Panic, f)
+      else let (wok, f1) := do_write (e_write e) machine_id_path uuid f in
+           (if wok then Ok tt else Err, f1).
+
+  (* get_machine_id over the old store *)
+  Definition get_machine_id_old (e : env) (f : fs) : outcome str * fs :=
+    let (r, f1) := match f machine_id_path with
+                   | None => create_and_store_old e f
+                   | Some _ => (Ok tt, f)
+                   end in
+    match r with
+    | Ok _ => match f1 machine_id_path with
+              | None => (Err, f1)
+              | Some vec => if utf8_valid vec then (Ok vec, f1) else (Panic, f1)
+              end
+    | Err => (Err, f1)
+    | _ => (Panic, f1)
+    end.
+
+  (* witness: the disk is full: the id file is created/truncated, then the write fails *)
+  Definition enospc_env : env := mkEnv 1711276032 [1;2;3;4;5;6;7;8;9;10;11;12] [49;46;48] (WriteFailed (Some [])) LinkDone true.
+  Definition no_files : fs := fun _ => None.
+
+  (* first call: an error, but an EMPTY id file is left behind ... *)
+  Lemma old_store_leaves_empty_file :
+    fst (get_machine_id_old enospc_env no_files) = Err
+    /\ snd (get_machine_id_old enospc_env no_files) machine_id_path = Some [].
+  Proof. split; reflexivity. Qed.
+
+  (* ... which every later call (space freed, any draw and clock) returns as the machine id *)
+  Theorem C20_old_store_refuted :
+    exists e f, DrawOK e /\ IdFileOK f /\
+      let f1 := snd (get_machine_id_old e f) in
+      ~ IdFileOK f1 /\ forall e2, fst (get_machine_id_old e2 f1) = Ok [] /\ ~ MachineId [].
+  Proof.
+    exists enospc_env, no_files. split; [split; [reflexivity|repeat constructor]|]. split; [left; reflexivity|].
+    cbn zeta. remember (snd (get_machine_id_old enospc_env no_files)) as f1 eqn:E.
+    assert (Hf1 : f1 machine_id_path = Some []) by (subst; reflexivity). clear E. split.
+    - intros [H|(e0 & Hb & H)]; [congruence|]. rewrite Hf1 in H.
+      inversion H as [H1]. pose proof (new_id_machine_id e0 Hb) as [Hl _]. rewrite <- H1 in Hl. discriminate Hl.
+    - intros e2. split.
+      + unfold get_machine_id_old. rewrite Hf1, Hf1, empty_valid. reflexivity.
+      + intros [H _]. discriminate H.
+  Qed.
+
+  (* the current store in the same environment: an error, and NO id file *)
+  Lemma new_store_leaves_no_file :
+    fst (create_and_store_machine_uuid enospc_env no_files) = Err
+    /\ snd (create_and_store_machine_uuid enospc_env no_files) machine_id_path = None.
+  Proof. split; reflexivity. Qed.
+End OldStore.
